@@ -159,7 +159,7 @@ def r17a(ck, fb):
                     'Ok(Some(session)) && UserRole::match_url_by_roles(session.roles, path, method)); is_check_path = !IGNORE_CHECK_LOGIN.contains '
                     '&& !STATIC_FILE_PATH.is_match')
     outer = fb.find(r'login_middle::CheckLoginMiddleware<S> as actix_web::dev::Service<actix_web::dev::ServiceRequest>>::call$')
-    ck.require(len(outer) == 1, 'R17a', 'anchor:call', '-', 'CheckLoginMiddleware::call not found')
+    ck.require(len(outer) >= 1, 'R17a', 'anchor:call', '-', 'CheckLoginMiddleware::call not found')
     if not outer:
         return
     o = outer[0]
@@ -171,7 +171,7 @@ def r17a(ck, fb):
             statics.add(m.group(1))
     ck.require({'IGNORE_CHECK_LOGIN', 'STATIC_FILE_PATH'} <= statics, 'R17a', 'call:uses-tables', o.where(), 'is_check_path does not consult IGNORE_CHECK_LOGIN and STATIC_FILE_PATH')
     blk = [b for b in fb.tree(o.name)[1:] if b.calls(r'Service<.*>::call$|dev::Service<Req>::call$')]
-    ck.require(len(blk) == 1, 'R17a', 'anchor:async-block', o.where(), 'async block with service.call not found')
+    ck.require(len(blk) >= 1, 'R17a', 'anchor:async-block', o.where(), 'async block with service.call not found')
     if not blk:
         return
     b = blk[0]
